@@ -226,8 +226,10 @@ impl MqttShared {
         payload: Option<Bytes>,
     ) -> Result<(), EncodeError> {
         self.check_streaming()?;
-        self.enable_streaming(&pkt, payload.as_ref());
-        self.io.encode(Encoded::Publish(pkt, payload), &self.codec)
+        let remaining = Self::streaming_size(&pkt, payload.as_ref());
+        self.io.encode(Encoded::Publish(pkt, payload), &self.codec)?;
+        self.streaming_remaining.set(remaining);
+        Ok(())
     }
 
     pub(super) fn encode_publish_payload(&self, payload: Bytes) -> Result<bool, EncodeError> {
@@ -317,9 +319,9 @@ impl MqttShared {
         }
     }
 
-    fn enable_streaming(&self, pkt: &Publish, payload: Option<&Bytes>) {
+    fn streaming_size(pkt: &Publish, payload: Option<&Bytes>) -> Option<num::NonZeroU32> {
         let len = payload.map_or(0, Bytes::len);
-        self.streaming_remaining.set(num::NonZeroU32::new(pkt.payload_size - len as u32));
+        num::NonZeroU32::new(pkt.payload_size - len as u32)
     }
 
     pub(super) fn pkt_ack(&self, ack: Ack) -> Result<(), ProtocolError> {
@@ -425,15 +427,34 @@ impl MqttShared {
         id: num::NonZeroU16,
         ack: AckType,
     ) -> Result<pool::Receiver<Ack>, SendPacketError> {
-        let mut queues = self.queues.borrow_mut();
-        if queues.inflight_ids.contains(&id) {
-            Err(SendPacketError::PacketIdInUse(id))
-        } else {
-            let (tx, rx) = self.pool.queue.channel();
-            queues.inflight.push_back((id, Some(tx), ack));
-            queues.inflight_ids.insert(id);
-            Ok(rx)
+        let result = {
+            let mut queues = self.queues.borrow_mut();
+            if queues.inflight_ids.contains(&id) {
+                Err(SendPacketError::PacketIdInUse(id))
+            } else {
+                let (tx, rx) = self.pool.queue.channel();
+                queues.inflight.push_back((id, Some(tx), ack));
+                queues.inflight_ids.insert(id);
+                Ok(rx)
+            }
+        };
+        if result.is_err() {
+            // send slot is not used, notify next queued sender
+            self.wake_waiter();
         }
+        result
+    }
+
+    /// Remove response registration, packet has not been sent
+    pub(super) fn cancel_response(&self, id: num::NonZeroU16) {
+        {
+            let mut queues = self.queues.borrow_mut();
+            if queues.inflight.back().is_some_and(|item| item.0 == id) {
+                queues.inflight.pop_back();
+                queues.inflight_ids.remove(&id);
+            }
+        }
+        self.wake_waiter();
     }
 
     /// Register ack in response channel
@@ -444,8 +465,23 @@ impl MqttShared {
         pkt: Publish,
         payload: Option<Bytes>,
     ) -> Result<pool::Receiver<Ack>, SendPacketError> {
+        let result = self.wait_publish_response_inner(id, ack, pkt, payload);
+        if result.is_err() {
+            // send slot is not used, notify next queued sender
+            self.wake_waiter();
+        }
+        result
+    }
+
+    fn wait_publish_response_inner(
+        &self,
+        id: num::NonZeroU16,
+        ack: AckType,
+        pkt: Publish,
+        payload: Option<Bytes>,
+    ) -> Result<pool::Receiver<Ack>, SendPacketError> {
         self.check_streaming()?;
-        self.enable_streaming(&pkt, payload.as_ref());
+        let remaining = Self::streaming_size(&pkt, payload.as_ref());
 
         let mut queues = self.queues.borrow_mut();
         if queues.inflight_ids.contains(&id) {
@@ -456,6 +492,7 @@ impl MqttShared {
                     let (tx, rx) = self.pool.queue.channel();
                     queues.inflight.push_back((id, Some(tx), ack));
                     queues.inflight_ids.insert(id);
+                    self.streaming_remaining.set(remaining);
                     Ok(rx)
                 }
                 Err(e) => Err(SendPacketError::Encode(e)),
@@ -463,7 +500,6 @@ impl MqttShared {
         }
     }
 
-    /// Register ack in response channel
     pub(super) fn wait_publish_response_no_block(
         &self,
         id: num::NonZeroU16,
@@ -472,7 +508,7 @@ impl MqttShared {
         payload: Option<Bytes>,
     ) -> Result<(), SendPacketError> {
         self.check_streaming()?;
-        self.enable_streaming(&pkt, payload.as_ref());
+        let remaining = Self::streaming_size(&pkt, payload.as_ref());
 
         let mut queues = self.queues.borrow_mut();
         if queues.inflight_ids.contains(&id) {
@@ -485,6 +521,7 @@ impl MqttShared {
                         "Publish ack callback is not set"
                     );
                     queues.inflight.push_back((id, None, ack));
+                    self.streaming_remaining.set(remaining);
                     queues.inflight_ids.insert(id);
                     Ok(())
                 }
